@@ -194,6 +194,158 @@ def deleg_rule(chk, db):
                           {"where": astx.loc(f)})
     if n < 12:
         chk.analysis_broken("DELEG: only %d forwarding members of etl::bitset (floor 12)" % n)
+    # single-bit members of basic_bitset use the bit primitive of their own name (set -> set_bit, reset -> reset_bit,
+    # flip -> flip_bit, test -> test_bit), also inside the lambdas they hand to transform_bit
+    prims = {"set_bit", "reset_bit", "flip_bit", "test_bit"}
+    m = 0
+    for f in db.funcs_of_record("etl::basic_bitset"):
+        if f.get("body") is None or f.get("kind") != "method":
+            continue
+        base = f["n"][len("unchecked_"):] if f["n"].startswith("unchecked_") else f["n"]
+        if base not in ("set", "reset", "flip", "test") or not f["params"]:
+            continue
+        used = [astx.callee(x)[0] for x in astx.all_exprs(f, into_lambdas=True) if x.get("k") == "call" and astx.callee(x)[0] in prims]
+        if not used:
+            continue
+        m += 1
+        chk.instance("DELEG")
+        wrong = sorted(set(u for u in used if u != base + "_bit"))
+        chk.obligation("DELEG", astx.sig(f), not wrong)
+        if wrong:
+            chk.violation("DELEG", astx.sig(f), "wrong-primitive", "%s: basic_bitset::%s applies %s to the addressed bit (its own primitive is %s_bit)" % (
+                astx.loc(f), f["n"], ", ".join(wrong), base), {"where": astx.loc(f)})
+    if m < 2:
+        chk.analysis_broken("DELEG: only %d single-bit members of basic_bitset use a bit primitive (floor 2)" % m)
+
+
+def bitprim_rule(chk, db):
+    """BITPRIM: the single-bit primitives compute their defining function. The return expression of set_bit / reset_bit /
+    flip_bit / test_bit (word, pos[, value]) is evaluated bitwise over a two-point domain: every word is the pair (bit at
+    position pos, any other bit); `1 << pos` is (1, 0), `UInt(value) << pos` is (value, 0), `word >> pos` exposes the
+    addressed bit, |, &, ^, ~ act componentwise. For all values of the word's two bits (and of `value`) the result must
+    be: set -> (1 or value, other unchanged), reset -> (0, unchanged), flip -> (not bit, unchanged), test -> bit."""
+    from .. import terms as _T
+    n = 0
+
+    class NM(Exception):
+        pass
+
+    def ev(e, env):
+        e = astx.strip_casts(e)
+        while e is not None and (e.get("k") == "paren" or (e.get("k") in ("construct", "initlist") and len(e.get("a", [])) == 1)):
+            e = astx.strip_casts(e.get("e") if e.get("k") == "paren" else e["a"][0])
+        if e is None:
+            raise NM("empty")
+        k = e.get("k")
+        iv = astx.int_value(e)
+        if iv is not None:
+            return ("const", iv)
+        if k in ("construct", "initlist") and not e.get("a"):
+            return ("const", 0)
+        if k == "bool":
+            return ("const", 1 if e["v"] else 0)
+        if k == "ref":
+            if e["n"] == env["word"]:
+                return ("bits", env["w"], env["o"])
+            if e["n"] == env["pos"]:
+                return ("pos",)
+            if e["n"] == env.get("value"):
+                return ("flag", env["v"])
+            raise NM("name `%s`" % e["n"])
+        if k == "un" and e["op"] == "~":
+            x = ev(e["e"], env)
+            if x[0] == "bits":
+                return ("bits", 1 - x[1], 1 - x[2])
+            raise NM("~ of a non-word")
+        if k == "un" and e["op"] == "!":
+            x = ev(e["e"], env)
+            if x[0] == "flag":
+                return ("flag", 1 - x[1])
+            raise NM("! of a non-flag")
+        if k == "bin" and e["op"] == "<<":
+            l, r = ev(e["l"], env), ev(e["r"], env)
+            if r[0] != "pos":
+                raise NM("shift count is not pos")
+            if l[0] == "const" and l[1] in (0, 1):
+                return ("bits", l[1], 0)
+            if l[0] == "flag":
+                return ("bits", l[1], 0)
+            raise NM("shifted operand")
+        if k == "bin" and e["op"] == ">>":
+            l, r = ev(e["l"], env), ev(e["r"], env)
+            if r[0] == "pos" and l[0] == "bits":
+                return ("low", l[1], l[2])       # bit 0 is the addressed bit, the bits above it are other bits
+            raise NM("right shift")
+        if k == "bin" and e["op"] in ("|", "&", "^"):
+            l, r = ev(e["l"], env), ev(e["r"], env)
+            f2 = {"|": lambda a, b: a | b, "&": lambda a, b: a & b, "^": lambda a, b: a ^ b}[e["op"]]
+            if l[0] == "bits" and r[0] == "bits":
+                return ("bits", f2(l[1], r[1]), f2(l[2], r[2]))
+            for x, y in ((l, r), (r, l)):
+                if x[0] == "low" and y[0] == "const" and y[1] == 1 and e["op"] == "&":
+                    return ("flag", x[1])
+            raise NM("bitwise operands")
+        if k == "bin" and e["op"] in ("!=", "=="):
+            l, r = ev(e["l"], env), ev(e["r"], env)
+            for x, y in ((l, r), (r, l)):
+                if y[0] == "const" and y[1] == 0 and x[0] == "bits":
+                    nz = 1 if (x[1] or x[2]) else 0
+                    return ("flag", nz if e["op"] == "!=" else 1 - nz)
+                if y[0] == "const" and y[1] == 0 and x[0] == "flag":
+                    return ("flag", x[1] if e["op"] == "!=" else 1 - x[1])
+            raise NM("comparison")
+        if k == "cond":
+            c = ev(e["c"], env)
+            if c[0] != "flag":
+                raise NM("condition")
+            return ev(e["t"] if c[1] else e["f"], env)
+        raise NM(astx.show(e, 40))
+
+    for name in ("set_bit", "reset_bit", "flip_bit", "test_bit"):
+        for f in db.by_q.get("etl::" + name, []):
+            if f.get("body") is None or len(f["params"]) < 2 or f["params"][1]["ty"].replace("const ", "").strip() == "bool":
+                continue
+            ret = None
+            for st in (f["body"].get("s") or []):
+                if st.get("k") == "return":
+                    ret = st.get("e")
+            n += 1
+            construct = astx.sig(f)
+            chk.instance("BITPRIM")
+            bad = unk = None
+            cnt = 0
+            has_v = len(f["params"]) == 3
+            for w in (0, 1):
+                for o in (0, 1):
+                    for v in ((0, 1) if has_v else (None,)):
+                        env = {"word": f["params"][0]["n"], "pos": f["params"][1]["n"], "value": f["params"][2]["n"] if has_v else None,
+                               "w": w, "o": o, "v": v}
+                        try:
+                            if ret is None:
+                                raise NM("no single return")
+                            r = ev(ret, env)
+                        except NM as ex:
+                            unk = str(ex)
+                            break
+                        cnt += 1
+                        if name == "test_bit":
+                            want = ("flag", w)
+                        else:
+                            want = ("bits", {"set_bit": (v if has_v else 1), "reset_bit": 0, "flip_bit": 1 - w}[name], o)
+                        if r != want and bad is None:
+                            bad = (env, r, want)
+            if unk:
+                chk.obligation("BITPRIM", construct, None)
+                chk.unknown_instance("BITPRIM", construct, "not modelled: %s" % unk)
+                continue
+            chk.obligation("BITPRIM", construct, bad is None, evaluations=cnt)
+            if bad:
+                env, r, want = bad
+                chk.violation("BITPRIM", construct, "wrong-bit-function", "%s: with the addressed bit = %d, another bit = %d%s the result has %s, "
+                              "%s requires %s" % (astx.loc(f), env["w"], env["o"], (", value = %d" % env["v"]) if env["v"] is not None else "",
+                                                 r[1:], name, want[1:]), {"where": astx.loc(f)})
+    if n < 4:
+        chk.analysis_broken("BITPRIM: only %d bit primitives found (floor 4)" % n)
 
 
 def proxy_rule(chk, db):
@@ -466,6 +618,7 @@ def run(chk, tier):
     deleg_rule(chk, db)
     guard_rule(chk, db)
     proxy_rule(chk, db)
+    bitprim_rule(chk, db)
     from ..rules import shift as _SH
     _SH.check(chk, db, ["_bit/", "_bitset/"], floor=20)      # SHIFT: shift counts stay below the promoted operand width
     strbit_rule(chk, db)
